@@ -241,6 +241,10 @@ def run (j : Json) : Except String Json := do
   let write := (← optStr j "api") == some "write"
   let text := Emit.moduleText O write defSrcs ⟨name, desc, s⟩
   let recog := PyGram.recognise X text
+  -- the side conditions of `C09.emitted_module_accepted_partial`
+  let srcOk := defSrcs.all Emit.classSrcOk && Emit.classSrcOk ⟨name, desc, s⟩
+  let clean := PyGram.textClean text
+  let nestOk := PyGram.nestOk X text
   let recogReal : Option PyGram.Verdict := match optField j "code" with
     | some (.str c) => some (PyGram.recognise X c.toList)
     | _ => none
@@ -280,6 +284,7 @@ def run (j : Json) : Except String Json := do
     ("recogReal", match recogReal with | some v => Json.str v.name | none => Json.null),
     ("mutantVerdicts", strs mutantVerdicts),
     ("oracleOk", Json.bool oracleOk),
+    ("srcOk", Json.bool srcOk), ("clean", Json.bool clean), ("nestOk", Json.bool nestOk),
     ("nameIssue", Json.bool nameIssue),
     ("refsOrdered", Json.bool ordered),
     ("refs", strs ((defs.map fun (_, d) => refsOf d).flatten ++ refsOf s)),
